@@ -8,7 +8,7 @@ R_NOTE = ("Trusted base: rustc's MIR for /repo (nightly dump, overflow checks on
 CHECKS = {
     'C01': dict(text="Bounded model checking by solver: every real-valued input stream of length t<=2n+3 (thorough 3n+3) for periods n<=4 (thorough n<=6) "
                      "is covered at once by z3 over the symbolically executed MIR of new/next (exact real arithmetic; Minimum/Maximum exact; SD/BB on variances); "
-                     "violations are replayed natively before being reported.",
+                     "violations are replayed natively before being reported. Plus Kani: Minimum/Maximum return exactly the window extreme for every finite f64 stream (ties, signed zeros), n<=4 (6), t=n+3 (2n+2); and the same R families after a symbolic history and a reset.",
                 technique="symbolic execution of rustc MIR into z3 (QF_UFLRA abstraction then QF_NRA), native replay of models", design='4/C01'),
     'C02': dict(text="Bounded model checking by solver: EMA, TrueRange, ATR, MACD, KeltnerChannel with the smoothing period a *symbolic* integer (every period 1..1e6 at once, incl. 1, "
                      "equal and inverted fast/slow), ChandelierExit for window periods n<=4 (5), all real inputs / independent bar fields, every prefix up to t=8 (12), against closed-form "
@@ -23,15 +23,15 @@ CHECKS = {
                      "reference denominator is non-zero, all positive real prices / valid bars, n<=4 (5), every prefix up to t=2n+3 (3n+3); violations replayed natively with the property's slack.",
                 technique="symbolic execution of rustc MIR into z3; UF abstraction with sign/ratio lemmas then NRA; native replay", design='4/C07'),
     'C09': dict(text="Bounded model checking by solver: SD/MAD/TrueRange/ATR >= 0 and no sqrt of a negative value, Minimum <= Maximum, band/exit ordering for every multiplier in [0,1000], "
-                     "histogram identities (MACD with symbolic periods), SMA/WMA/EMA inside their hull, for all real inputs, n<=4 (5), t<=2n+3 (3n+3); violations replayed natively.",
+                     "histogram identities (MACD with symbolic periods), SMA/WMA/EMA inside their hull, for all real inputs, n<=4 (5), t<=2n+3 (3n+3); violations replayed natively. Plus Kani: SD(1,2) and MAD(2) are >= 0 and not NaN for every finite |x|<=1e12 (cancellation included); R families also after a reset.",
                 technique="symbolic execution of rustc MIR into z3 (exact reals); native replay", design='4/C09'),
     'C13': dict(text="Solver-decided absence of algebraic drift for ALL stream lengths at fixed period n<=4 (6): one inductive step of the real next() from every reachable cursor state with "
                      "symbolic window contents (SMA, WMA, SD, BB, MAD: output equals the from-scratch statistic, every accumulator and ring slot re-established), plus bounded unrolling "
-                     "from new() at t=3n+4 (4n+4) for SMA/WMA/SD/BB/MAD/Min/Max/CCI/MFI. Accumulated floating-point rounding over 10^6 steps is NOT decided (stated in the evidence).",
+                     "from new() at t=3n+4 (4n+4) for SMA/WMA/SD/BB/MAD/Min/Max/CCI/MFI. Accumulated floating-point rounding over 10^6 steps is NOT decided (stated in the evidence). Plus Kani: BB(2) average within 1e-8 of the window mean for 6 inputs symbolic over a cancellation alphabet (a spike, then 1e-6 ticks), sqrt stubbed; a full-range variant as bug hunting only in the thorough tier.",
                 technique="one-step induction + bounded unrolling by symbolic execution of rustc MIR into z3 (exact reals)", design='4/C13'),
     'C17': dict(text="Bounded model checking by solver: for SMA, WMA, SD, MAD, Min, Max, FastStochastic, BB, CCI (last n) and ROC, ER, MFI (last n+1): an instance fed an arbitrary symbolic prefix "
                      "(<= n+3 inputs, unconstrained magnitude) then a suffix returns exactly the output of a fresh instance fed the suffix only, n<=4 (5); too-short suffixes must be able "
-                     "to differ (witness); violations replayed natively with the property's tolerance.",
+                     "to differ (witness); violations replayed natively with the property's tolerance. Plus Kani: Minimum/Maximum (FastStochastic n=1) with prefixes of EVERY f64 bit pattern (NaN, inf) of every length 1..n+1 and a finite suffix equal the fresh instance exactly, n<=3 (4).",
                 technique="symbolic execution of rustc MIR into z3, two instances with different ring rotation compared; native replay", design='4/C17'),
     'C16': dict(text="Bounded model checking by CBMC on the compiled crate: a symbolic script of up to 7 (9) setter calls (which setter and which value symbolic, every f64 bit pattern incl. NaN/inf/-0.0) "
                      "followed by build(), against a last-value-per-field model: Incomplete iff a field never set, else Invalid iff the six comparisons fail, else Ok with bit-exact getters and an equal clone; "
@@ -41,7 +41,7 @@ CHECKS = {
     'C12': dict(text="Bounded model checking by CBMC on the compiled crate (dev profile: overflow checks and debug assertions on): for all 22 indicators and periods n<=3 (8), schedule "
                      "[k x next, reset] for k=0..2, then 3n+3 x next, clone, next on both, with EVERY input an arbitrary f64 bit pattern (NaN, +-inf, subnormals, -0.0; bar fields independent): "
                      "no Rust panic, no out-of-bounds, no overflow. ChandelierExit/SlowStochastic with EMA::next stubbed (its own harness decides it) and shorter schedules in the quick tier. "
-                     "Counterexamples are decoded from concrete playback and replayed natively.",
+                     "Counterexamples are decoded from concrete playback and replayed natively. Plus R: one inductive step on the cursor invariant from every invariant cursor state with symbolic buffers for the nine ring indicators, n<=5 (12): all history lengths (not required for the verdict).",
                 technique="Kani/CBMC proof harnesses over kani::any() inputs, unwinding assertions on, native replay of counterexamples", design='4/C12', engine='kani',
                 note="Trusted base: Kani 0.68 / CBMC 6.11; stubs listed per family in the evidence (f64::sqrt -> arbitrary value for SD/BB; EMA::next -> arbitrary value inside CE/SlowStochastic)."),
     'C06': dict(text="Bounded model checking by CBMC of the serde-derived Serialize/Deserialize impls of /repo, driven through a minimal non-self-describing token format (bincode's shape "
@@ -69,7 +69,7 @@ CHECKS = {
                 technique="symbolic execution of rustc MIR into z3 (integers with overflow assertions) + Kani/CBMC harnesses; native confirmation incl. Display", design='4/C11'),
     'C10': dict(text="Bounded model checking by solver: the generic Next<&T> bodies executed from MIR with a bar whose five getters return five INDEPENDENT symbolic reals: equality with Next<f64> on "
                      "close / low / high as documented (13 indicators), one-price bars vs the scalar path (FastStochastic, SlowStochastic, TrueRange, ATR, KeltnerChannel), independence of every field an "
-                     "indicator is not documented to read (all 22, two streams differing exactly there), and DataItem (its own getter MIR) vs any other implementor; n<=3 (4), t=n+2; violations replayed natively.",
+                     "indicator is not documented to read (all 22, two streams differing exactly there), and DataItem (its own getter MIR) vs any other implementor; n<=3 (4), t=n+2; violations replayed natively. Plus Kani: bar path == scalar path bit for bit with EVERY f64 bit pattern (NaN, inf) in the ignored fields (read field: every finite f64 for Min/Max, a 3-value alphabet for arithmetic indicators).",
                 technique="symbolic execution of rustc MIR into z3 with an abstract bar type; native replay", design='4/C10'),
     'C15': dict(text="Bounded model checking by solver with the real code on BOTH sides: each composite's next() and, in the same query, separately constructed public parts fed the same symbolic stream and "
                      "combined as documented (BB vs SMA/SD, SlowStochastic vs EMA o FastStochastic, ATR vs EMA o TrueRange, MACD/PPO vs three EMAs, KC vs EMA/ATR, CE vs Min/Max/ATR, CCI vs SMA/MAD of the "
